@@ -251,12 +251,18 @@ type op struct {
 	To   string `json:"to,omitempty"`   // rename: destination; symlink: target (relative to the world)
 	Font string `json:"font,omitempty"` // add: corpus-relative font file whose bytes are written
 	Junk string `json:"junk,omitempty"` // junk: kind of non-font content
+	// Tick, when not 0, is the logical time stamped on the file written by add/junk instead of a fresh
+	// one: only used to reinstall a file at a path whose removal a refresh has already seen, with the
+	// mtime the removed file had (restoring a backup, re-installing the same package).
+	Tick int64 `json:"tick,omitempty"`
 }
 
 type world struct {
 	dir  string
 	old  string
 	tick int64
+	// fileTick is the logical time of the last file written by add/junk
+	fileTick int64
 }
 
 func newWorld() (*world, error) {
@@ -338,7 +344,14 @@ func (w *world) apply(o op) error {
 		}
 		os.MkdirAll(filepath.Dir(o.Path), 0o755)
 		if os.WriteFile(o.Path, data, 0o644) == nil {
-			w.stamp(o.Path) // a write always gets a fresh, unique mtime
+			if o.Tick != 0 {
+				tm := tickTime(o.Tick)
+				os.Chtimes(o.Path, tm, tm)
+				w.fileTick = o.Tick
+			} else {
+				w.stamp(o.Path) // a write always gets a fresh, unique mtime
+				w.fileTick = w.tick
+			}
 		}
 		w.stampParent(o.Path)
 	case "remove":
@@ -449,6 +462,10 @@ func TestReplay(t *testing.T) {
 			var c refreshCase
 			dec(&c)
 			runRefreshCase(t, c)
+		case "refresh-history":
+			var c refreshHistCase
+			dec(&c)
+			runRefreshHistory(t, c)
 		default:
 			t.Fatalf("replay %s: unknown check %q", f, check)
 		}
